@@ -190,7 +190,7 @@ func c12Gen(t *verifrt.Tape) *c12Scenario {
 	if chain != nil {
 		names = []string{"a", "b", "b", "b"}
 	}
-	vals := []string{"Ab", "aB", "AB", "ab", "Q%41", " x ", "a+B", "Ab", "<!--c-->Z", "&amp;", "4142", "4a4B", "QUI=",
+	vals := []string{"", "", "Ab", "aB", "AB", "ab", "Q%41", " x ", "a+B", "Ab", "<!--c-->Z", "&amp;", "4142", "4a4B", "QUI=",
 		// chains x -> T(x) -> T(T(x)) present side by side
 		"%252541b", "%2541b", "%41b", "Ab", "ab", "  ab ", " ab", "343134", "3431", "41",
 		// equal-length pairs that collide under weak fingerprints (byte sum, FNV-1a 32)
